@@ -201,6 +201,7 @@ def explore(tier, seed):
         chunks.append(("structure", part))
     for p in CHAIN_PATTERNS:
         chunks.append(("chain", p, 40 if tier == "quick" else 400))
+    chunks.append(("anchors", CHAIN_PATTERNS))
     return pool.run_chunks(run_chunk, chunks)
 
 
@@ -243,9 +244,57 @@ def run_chunk(chunk):
             st.outcomes["structure-pattern"] += 1
             st.observe((text, n, t))
         st.sample({"structure_sweep_patterns": chunk[1][:3], "states_of_last": n})
+    elif chunk[0] == "anchors":
+        anchored(st, chunk[1])
     else:
         chain(st, chunk[1], chunk[2])
     return st
+
+
+# (pattern prefix, pattern suffix, literal text they stand for): only the very first ^ and the very last $ are anchors
+ANCHOR_WRAPS = [("^", "", "", ""), ("", "$", "", ""), ("^", "$", "", ""), ("^^", "", "^", ""), ("", "$$", "", "$"), ("^^", "$$", "^", "$"),
+                ("$Rev: ", " $$", "$Rev: ", " $"), ("a^", "$b", "a^", "$b"), ("^^^", "$$$", "^^", "$$")]
+
+
+def anchored(st, patterns):
+    """Patterns with line anchors at their edges, incl. a literal ^ / $ next to the anchor: what is rendered must be accepted by the
+    pattern's own recogniser, read back equal and render again to the same text."""
+    import bumpver.v2patterns as v2patterns
+
+    for text in patterns:
+        pat = grammar.Pat(M.parse_pattern(text))
+        for state in grammar.seeds(pat, level=1):
+            core = M.render(pat.tree, state)
+            if M.recognise(pat.tree, core) != state or all(M.is_zero(n, state) for n in pat.names):
+                continue
+            for pre, suf, lpre, lsuf in ANCHOR_WRAPS:
+                wrapped, want = pre + text + suf, lpre + core + lsuf
+                case = {"pattern": wrapped, "version": want, "anchors": True}
+                st.evaluations += 1
+                st.transitions += 1
+                st.state(wrapped, want)
+                st.nontriv(wrapped, want)
+                try:
+                    parsed = v2version.parse_version_info(want, wrapped)
+                    again = v2version.format_version(parsed, wrapped)
+                    full = v2patterns.compile_pattern(wrapped).regexp.fullmatch(want) is not None
+                except Exception as ex:
+                    st.outcomes["violation"] += 1
+                    st.violation(f"C02:anchored-pattern:{type(ex).__name__}:{pre}..{suf}", case, {"error": str(ex)[:160]})
+                    continue
+                st.observe((wrapped, want, again, full))
+                if again != want or not full:
+                    st.outcomes["violation"] += 1
+                    st.violation(f"C02:anchored-pattern:rendering-not-accepted-or-not-reproduced:{pre}..{suf}", case, {"rendered_again": again, "fullmatch": full})
+                    continue
+                for f in dict.fromkeys(pat.fields):
+                    if getattr(parsed, FIELD_MAP.get(f, f)) != state[f]:
+                        st.outcomes["violation"] += 1
+                        st.violation(f"C02:anchored-pattern:part-reads-back-differently:{f}", case, {"read": getattr(parsed, FIELD_MAP.get(f, f)), "was": state[f]})
+                        break
+                else:
+                    st.validated += 1
+                    st.outcomes["anchored-pattern:round-trip"] += 1
 
 
 def chain(st, text, length):
@@ -314,6 +363,9 @@ def _culprit_text(pat, text):
 
 def replay(case, st):
     world.set_today(dt.date(2033, 3, 3))
+    if case.get("anchors"):
+        anchored(st, CHAIN_PATTERNS)
+        return
     pat = grammar.Pat(M.parse_pattern(case["pattern"]))
     if "date" in case:
         d = dt.date.fromisoformat(case["date"])
